@@ -174,9 +174,8 @@ def check_message(ctx, case, toks, b, tag, converters=True):
     if res[0] == 'err' and 'ids' in case:
         # the hierarchical view of a decodable message could not be built at all
         hz = B.wiring_hazards(case['ids'], case.get('version', 33))
-        if 'refval-definition-under-204' in hz or 'marker-under-204' in hz:
-            ctx.violation({'kind': 'C09-wire-fails', 'case': case, 'error_class': res[1],
-                           'cause': 'refval-definition-under-204' if 'refval-definition-under-204' in hz else 'marker-under-204'},
+        if 'marker-under-204' in hz:
+            ctx.violation({'kind': 'C09-wire-fails', 'case': case, 'error_class': res[1], 'cause': 'marker-under-204'},
                           '%s: TemplateData.wire raises (error class %d) on a decodable message' % (tag, res[1]))
             return
         if 'marker-without-significance' in hz:
